@@ -129,10 +129,15 @@ UnitP(n, k) == Fv([i \in 1..(n + 1) |-> IF i = k THEN 1 ELSE 0])
 Ts       == { <<1,1>>, <<2,1>>, <<5,2>> }
 Times(T) == { <<-1,2>>, <<0,1>>, <<1,4>>, <<1,2>>, <<1,1>>, T, RMul(<<3,2>>, T) }
 
-(* control polygons with entries in -3..3: pseudo-random quadratic residues, plus (row 1)
-   the alternating polygon (largest differences) and the scaled Bernstein basis 3*e_k *)
-PR(n, s, r) == Fv([k1 \in 1..(n + 1) |->
-                     LET k == k1 - 1 IN (((s + r) * k * k + (3 * s + r * r + 1) * k + (s \div 3) + 2 * r) % 7) - 3])
+(* control polygons with entries in -3..3: pseudo-random cubic residues mod 7 (coefficients from
+   the base-7 digits of the seed s and the row r; distinct seeds < 343 give distinct polygons for
+   degree >= 6), plus (row 1) the alternating polygon (largest differences) and the scaled
+   Bernstein basis 3*e_k *)
+PR(n, s, r) == LET a == s % 7  b == (s \div 7) % 7  c == (s \div 49) % 7 IN
+               Fv([k1 \in 1..(n + 1) |->
+                     LET k == k1 - 1 IN
+                     (((a + r) * k * k * k + (b + 2 * r + a * a) * k * k + (c + r * r + 3 * a) * k
+                       + (a + b + c + 3 * r)) % 7) - 3])
 Row(n, s, r) == IF r > 1 THEN PR(n, s, r)
                 ELSE IF s = 0 THEN Fv([k1 \in 1..(n + 1) |-> IF k1 % 2 = 1 THEN 3 ELSE -3])
                 ELSE IF s <= n + 1 THEN Fv([k1 \in 1..(n + 1) |-> IF k1 = s THEN 3 ELSE 0])
